@@ -20,11 +20,21 @@ NON_DECODE_EXC = ("IndexError", "ValueError", "KeyError", "TypeError", "Overflow
                   "ZeroDivisionError", "AssertionError", "RecursionError", "MemoryError", "error")
 
 
-def negative_length(res):
-    """a size / count read back as a NEGATIVE Java integer (KF-C19-signed-size): the exception says so"""
+def negative_length(res, chain=None):
+    """a size / count read back as a NEGATIVE Java integer (KF-C19-signed-size): the exception says so, and the packet
+    has a size / count field exactly as wide as a Java integral type (a narrower one is masked and comes out unsigned)
+    whose range the negative number fits"""
     import re
-    return res.get("e") in ("NegativeArraySizeException", "IndexOutOfBoundsException", "IllegalArgumentException") and \
-        bool(re.search(r"(^|[^0-9A-Za-z])-\d+", str(res.get("m") or "")))
+    if res.get("e") not in ("NegativeArraySizeException", "IndexOutOfBoundsException", "IllegalArgumentException"):
+        return False
+    mt = re.search(r"(?:^|[^0-9A-Za-z])-(\d+)", str(res.get("m") or ""))
+    if not mt:
+        return False
+    neg = int(mt.group(1))
+    if chain is None:
+        return True
+    widths = [f["width"] for dd in chain for f in dd.get("fields", []) if f["kind"] in ("size_field", "count_field")]
+    return any(w in (8, 16, 32, 64) and neg <= (1 << (w - 1)) for w in widths)
 
 
 def corpus_texts():
@@ -110,7 +120,7 @@ def main(argv):
                 if back.get("r") != "ok":
                     rep["parse"] = back
                     rep["signature"] = {"class": "roundtrip-" + str(back.get("r")), "e": back.get("e"), **tags}
-                    if negative_length(back):
+                    if negative_length(back, chain):
                         rep["signature"]["negative_length"] = True
                     run.violation("impl", "java parse_all(serialize(v)) for %s -> %s %s" % (T, back.get("r"), back.get("e") or ""), rep)
                 elif back.get("type") == T and W.canon(back["value"]) != W.canon(v):
@@ -161,7 +171,7 @@ def main(argv):
                             run.hist("dec_outcomes", "err-in-matching-child")
                             continue
                         rep["signature"] = {"class": "rejects-valid", "e": r.get("e"), **tags}
-                        if negative_length(r):
+                        if negative_length(r, chain):
                             rep["signature"]["negative_length"] = True
                         run.violation("impl", "java %s.parse_all(%s) raises %s but the reference accepts it" % (T, s.hex()[:40], r.get("e")), rep)
                     continue
